@@ -374,8 +374,14 @@ func (ip *FileIP) WriteAuditLogToFile() {
 	ip.lock.Unlock()
 	CheckWithMsg(jsonErr, "Could not marshall JSON")
 	ip.createDirs("")
-	writeErr := ioutil.WriteFile(ip.AuditFilePath(), auditInfoJSON, 0644)
+	// Write to a temporary file and rename it into place, so that an
+	// interrupted write never leaves a truncated audit file next to an
+	// already finished output
+	tmpAuditPath := ip.AuditFilePath() + ".tmp"
+	writeErr := ioutil.WriteFile(tmpAuditPath, auditInfoJSON, 0644)
 	CheckWithMsg(writeErr, "Could not write audit file: "+ip.Path())
+	renameErr := os.Rename(tmpAuditPath, ip.AuditFilePath())
+	CheckWithMsg(renameErr, "Could not write audit file: "+ip.Path())
 }
 
 // AuditInfo returns the AuditInfo struct for the FileIP
